@@ -133,6 +133,7 @@ pub fn default_config() -> LabConfig {
         with_pool: true,
         origins: vec![OriginCfg { uri: "http://a.test".into(), alpn_h2: false }],
         timeout_layer_ms: None,
+        open_ignores_busy: false,
     }
 }
 
@@ -145,6 +146,7 @@ impl LabConfig {
             "with_pool": self.with_pool,
             "origins": self.origins.iter().map(|o| json!({"uri": o.uri, "alpn_h2": o.alpn_h2})).collect::<Vec<_>>(),
             "timeout_layer_ms": self.timeout_layer_ms,
+            "open_ignores_busy": self.open_ignores_busy,
         })
     }
     pub fn from_json(v: &Value) -> LabConfig {
@@ -155,6 +157,7 @@ impl LabConfig {
             with_pool: v["with_pool"].as_bool().unwrap_or(true),
             origins: v["origins"].as_array().map(|a| a.iter().map(|o| OriginCfg { uri: o["uri"].as_str().unwrap().to_string(), alpn_h2: o["alpn_h2"].as_bool().unwrap_or(false) }).collect()).unwrap_or_default(),
             timeout_layer_ms: v["timeout_layer_ms"].as_u64(),
+            open_ignores_busy: v["open_ignores_busy"].as_bool().unwrap_or(false),
         }
     }
 }
